@@ -339,11 +339,22 @@ func (g *gctx) genArgs(d int, ar int) *gnode {
 		g.use("kwarg-unpack")
 		items = append(items, gn("**{ky: ", pos("pair-value", g.genI(d)), "}"))
 	}
+	// multi-line layouts: continuation lines may start in a smaller column than the arguments before them
+	multi := g.r.Intn(5) == 0
 	for i, it := range items {
 		if i > 0 {
-			n.parts = append(n.parts, ", ")
+			if multi && g.r.Bool() {
+				n.parts = append(n.parts, ",\n"+strings.Repeat(" ", g.r.Intn(3)))
+			} else {
+				n.parts = append(n.parts, ", ")
+			}
+		} else if multi {
+			n.parts = append(n.parts, strings.Repeat(" ", 8+g.r.Intn(12)))
 		}
 		n.parts = append(n.parts, it)
+	}
+	if multi {
+		g.use("multi-line-args")
 	}
 	return n
 }
@@ -394,6 +405,23 @@ func (g *gctx) genStmt(d int, indent string) *gnode {
 			return gn(indent, "kx1 := ", pos("assigned", g.genA(1)), " + [7]\n", indent, "kx2 := kx1 + [8]\n", indent, "kx3 := kx1 + [9]\n", indent, "[kx1, kx2, kx3].p\n")
 		default:
 			return gn(indent, "kz := ", pos("assigned", g.genA(1)), "@{|x| [x]}\n", indent, "kw := kz@{|y| y + [0]}\n", indent, "[kz, kw].p\n")
+		}
+	}
+	if g.bias == 'C' && g.r.Intn(3) != 0 {
+		g.use("conditional-nesting")
+		switch g.r.Intn(6) {
+		case 0:
+			return gn(indent, "{|| return t(1) if ", pos("condition", g.genCond(2)), "; t(2)}().p\n")
+		case 1:
+			return gn(indent, "{|| yield t(1) if ", pos("condition", g.genCond(2)), "; t(2)}().p\n")
+		case 2:
+			return gn(indent, "{|| defer t(9) if ", pos("condition", g.genCond(2)), "; t(2)}().p\n")
+		default:
+			// without the outer parentheses too: the parser decides the nesting
+			if g.r.Bool() {
+				return gn(indent, "cx := ", g.genCond(1), " && ", g.genCond(1), " || ", g.genCond(1), "\n", indent, "cx.p\n")
+			}
+			return gn(indent, pos("receiver", g.genCond(3)), ".p\n")
 		}
 	}
 	if g.bias == 'E' && g.r.Intn(6) == 0 {
@@ -630,6 +658,32 @@ func (g *gctx) genIterStmt(d int, indent string) *gnode {
 	default:
 		g.use("iterator-chain")
 		return gn(indent, "gen.new(1)@{|x| x}.p\n")
+	}
+}
+
+// genCond: nested conditionals over values of every Core type, every operand traced: `&&` / `||` mixed and nested
+// on either side, if-else as branch and as condition, negation, guarded jumps
+func (g *gctx) genCond(d int) *gnode {
+	vals := []string{"0", "1", "7", "\"\"", "\"a\"", "[]", "[0]", "{}", "{ka: 0}", "nil", "true", "false"}
+	leaf := func() *gnode {
+		return gn("t(", vals[g.r.Intn(len(vals))], ")")
+	}
+	if d <= 0 {
+		return leaf()
+	}
+	switch g.r.Intn(9) {
+	case 0:
+		return leaf()
+	case 1, 2:
+		return gn("(", pos("operand", g.genCond(d-1)), " && ", pos("shortcut-right", g.genCond(d-1)), ")")
+	case 3, 4:
+		return gn("(", pos("operand", g.genCond(d-1)), " || ", pos("shortcut-right", g.genCond(d-1)), ")")
+	case 5, 6:
+		return gn("(", pos("branch", g.genCond(d-1)), " if ", pos("condition", g.genCond(d-1)), " else ", pos("branch", g.genCond(d-1)), ")")
+	case 7:
+		return gn("(", pos("branch", g.genCond(d-1)), " if ", pos("condition", g.genCond(d-1)), ")")
+	default:
+		return gn("(!", pos("operand", g.genCond(d-1)), ")")
 	}
 }
 
